@@ -8,6 +8,7 @@ CBC).  Model: `Gotlcp.Model.DtlcpTx`, fed with the regenerated constants `here`.
 -/
 import Gotlcp.Lemmas.DtlcpTx
 import Gotlcp.Generated.Facts
+import Gotlcp.Tie.RecordSize
 
 set_option linter.unusedSimpArgs false
 set_option linter.unusedVariables false
@@ -447,5 +448,82 @@ example : (writeRecordPieces here 17 .none (zeros 10)).map List.length = [4, 4, 
 /-- **K3 (finding)**: two 100-byte handshake records buffered at PMTU 150 leave as one
 226-byte datagram (the driver replays 2 x 1000 bytes at PMTU 1400: 2026 bytes) -/
 example : flightDatagrams here 150 .none [zeros 100, zeros 100] = [226] := by decide
+
+/-! ### the size arithmetic, about the SOURCE TEXT
+
+`Gotlcp.Src.dtlcp.{halfConn.explicitNonceLen, Conn.maxPayloadSizeForWrite}` are regenerated from
+dtlcp/conn.go by the translator `harness/cmd/go2lean` on every run, statement by statement, over
+*views* of `Conn` / `halfConn` (`Dyn` is the dynamic type of the interface value `c.out.cipher`;
+`x & ^(b-1)` is two's complement on 64 bits).  `Gotlcp.Tie.RecordSize` proves them equal to
+`Model.DtlcpTx` for every view, so the range and path-MTU theorems above hold of the function text
+that is in the tree now. -/
+
+theorem C15_src_translated :
+    Src.untranslated = [] ∧ Tie.RecordSize.Dtlcp.K = here := ⟨by decide, rfl⟩
+
+open Gotlcp.Tie.RecordSize.Dtlcp in
+/-- **The maximum payload is always usable, for the source text** (`C15_max_payload_range`): for
+EVERY view of a connection — any dynamic type and sizes of the cipher, any PMTU, any record
+type — the translated `maxPayloadSizeForWrite` returns normally a value in `[1, maxPlaintext]`. -/
+theorem C15_src_max_payload_range (c : Src.dtlcp.Conn) (typ : BitVec 8) :
+    ∃ n, Src.dtlcp.Conn.maxPayloadSizeForWrite c typ = .ok n ∧
+      1 ≤ n ∧ n ≤ (Facts.dtlcp.maxPlaintext : Int) := by
+  have h := clamp_range (srcRaw c)
+  have e : ((Facts.dtlcp.maxPlaintext : Nat) : Int) = 16384 := by decide
+  exact ⟨_, src_shape c typ, h.1, by rw [e]; exact h.2⟩
+
+open Gotlcp.Tie.RecordSize.Dtlcp in
+/-- **The translated `maxPayloadSizeForWrite` is the model**: every view whose `c.out` is
+unprotected, an AEAD with any non-negative nonce / tag lengths, or CBC with any power-of-two block
+size up to `2^62` and any non-negative MAC length (`Matches`); every `Config.PMTU` a Go `int`
+holds; every record type. -/
+theorem C15_src_max_payload_is_model (c : Src.dtlcp.Conn) (typ : BitVec 8) (ciph : Cipher)
+    (hm : Matches c.out ciph)
+    (hlo : -(2 : Int) ^ 63 ≤ c.config.PMTU) (hhi : c.config.PMTU < (2 : Int) ^ 63) :
+    Src.dtlcp.Conn.maxPayloadSizeForWrite c typ
+      = .ok (maxPayloadSizeForWrite here c.config.PMTU ciph : Int) := by
+  obtain ⟨n, h, _, hn, _⟩ := tie_maxPayloadSizeForWrite c typ ciph hm hlo hhi
+  rw [h, hn]; rfl
+
+open Gotlcp.Tie.RecordSize.Dtlcp in
+/-- the translated `explicitNonceLen` is the model's -/
+theorem C15_src_explicit_nonce (hc : Src.dtlcp.halfConn) (ciph : Cipher) (hm : Matches hc ciph) :
+    Src.dtlcp.halfConn.explicitNonceLen hc = .ok (explicitNonceLen ciph : Int) :=
+  tie_explicitNonceLen hc ciph hm
+
+open Gotlcp.Tie.RecordSize.Dtlcp in
+/-- **Application datagrams fit the path MTU, for the source text** (`C15_app_fits`): on a view
+protected by this tree's SM4-GCM or SM4-CBC-SM3 sizes, with a PMTU that leaves room for one byte,
+a record of at most as many bytes as the translated function returns is a datagram of at most
+the PMTU in force. -/
+theorem C15_src_app_fits (c : Src.dtlcp.Conn) (typ : BitVec 8) (ciph : Cipher)
+    (hc : ciph = gcmHere ∨ ciph = cbcHere) (hm : Matches c.out ciph)
+    (hlo : -(2 : Int) ^ 63 ≤ c.config.PMTU) (hhi : c.config.PMTU < (2 : Int) ^ 63)
+    (hw : 1 ≤ rawBudget here c.config.PMTU ciph) :
+    ∃ n, Src.dtlcp.Conn.maxPayloadSizeForWrite c typ = .ok n ∧
+      ∀ m : Nat, (m : Int) ≤ n → (recordLen here ciph m : Int) ≤ effPmtu c.config.PMTU := by
+  refine ⟨_, C15_src_max_payload_is_model c typ ciph hm hlo hhi, ?_⟩
+  intro m hmn
+  have hmn' : m ≤ maxPayloadSizeForWrite here c.config.PMTU ciph := by omega
+  rcases hc with rfl | rfl
+  · exact (C15_app_fits c.config.PMTU m).1 hw hmn'
+  · exact (C15_app_fits c.config.PMTU m).2 hw hmn'
+
+open Gotlcp.Tie.RecordSize.Dtlcp in
+/-- non-vacuity: views of an SM4-GCM connection at PMTU 1400 and of an SM4-CBC-SM3 connection at
+the default PMTU satisfy the hypotheses; the translated code run on them (kernel evaluation)
+returns 1363 and 1327, and records of that size are datagrams of 1400 and 1389 bytes -/
+example :
+    let g : Src.dtlcp.Conn := { config := { PMTU := 1400 }, out := { cipher := .goAEAD ⟨16, 8⟩ } }
+    let b : Src.dtlcp.Conn := { config := { PMTU := 0 }, out := { cipher := .goCBC ⟨16⟩, mac := ⟨32⟩ } }
+    Matches g.out gcmHere ∧ Matches b.out cbcHere ∧
+    1 ≤ rawBudget here 1400 gcmHere ∧ 1 ≤ rawBudget here 0 cbcHere ∧
+    (Src.dtlcp.Conn.maxPayloadSizeForWrite g 23#8).toOption = some 1363 ∧
+    (Src.dtlcp.Conn.maxPayloadSizeForWrite b 23#8).toOption = some 1327 ∧
+    recordLen here gcmHere 1363 = 1400 ∧ recordLen here cbcHere 1327 = 1389 := by
+  intro g b
+  exact ⟨Matches.aead ⟨16, 8⟩ rfl (by decide) (by decide),
+    Matches.cbc ⟨16⟩ 4 rfl (by decide) (by decide) (by decide),
+    by decide, by decide, by decide, by decide, by decide, by decide⟩
 
 end Gotlcp.Props.C15
